@@ -32,7 +32,8 @@ func (eng) Rule() string {
 		"while a second goroutine appends and loses the CAS inside the release window (pq.cas-lost hit observed), then released; " +
 		"(lin) relation-free schemas, client-boundary history of Add1/Remove1/Tick per state checked with porcupine against a " +
 		"per-state tick model; (dedup) 2-8 arg-less Add1/Remove1/CanAdd1/CanRemove1 issued from a handler that holds the queue or from " +
-		"another goroutine meanwhile, activity after the drain compared with the sequential application of the real mutations. Monitors: handler/eval single occupancy, tracer nesting, queue-tick order of appended mutations, " +
+		"another goroutine meanwhile, activity after the drain compared with the sequential application of the real mutations; (dedupwin) " +
+		"the last issued arg-less mutation parked at dq.found while the queue processes its twin and the counter mutation. Monitors: handler/eval single occupancy, tracer nesting, queue-tick order of appended mutations, " +
 		"exactly-once conservation of uids, stranded queue at quiescence (stable), WhenQueue(tick) closed for every processed tick " +
 		"(subscribed before and after processing). Evaluation = one issued op; distinct non-trivial = distinct (case, op) that was " +
 		"queued behind a running transition or raced the release window."
@@ -61,6 +62,9 @@ func (eng) Cases(seed uint64, tier string) []core.CaseDesc {
 	}
 	for i := 0; i < nl; i++ {
 		cs = append(cs, core.CaseDesc{ID: fmt.Sprintf("lin/%05d", i), Kind: "lin", Seed: seed*3000003 + uint64(i)})
+	}
+	for i := 0; i < 4; i++ {
+		cs = append(cs, core.CaseDesc{ID: fmt.Sprintf("dedupwin/%02d", i), Kind: "dedupwin", Seed: uint64(i)})
 	}
 	nd := 200
 	if tier == "thorough" {
@@ -789,8 +793,115 @@ func (eng) Run(c core.CaseDesc, tier string) *core.CaseResult {
 		runLin(res, c)
 	case "dedup":
 		runDedup(res, c)
+	case "dedupwin":
+		runDedupWindow(res, c)
 	}
 	return res
+}
+
+// runDedupWindow: an arg-less mutation is parked inside the duplicate
+// detection (dq.found: its twin was found in the queue) while the queue moves
+// on - the twin and the counter mutation behind it are processed. The parked
+// mutation is the last one issued, so its effect has to show at the end.
+func runDedupWindow(res *core.CaseResult, c core.CaseDesc) {
+	add := c.Seed%2 == 0 // the parked mutation: Add A (after Add A, Remove A) or Remove A (after Remove A, Add A)
+	extra := c.Seed/2 == 1
+	m := am.New(context.Background(), am.Schema{"A": {}, "B": {}, "Hold": {}},
+		&am.Opts{Id: "c04dw", DontLogId: true, DontLogStackTrace: true, HandlerTimeout: 30 * time.Second})
+	defer m.Dispose()
+	if !add {
+		m.Add1("A", nil)
+	}
+	entered := make(chan struct{})
+	gate := make(chan struct{})
+	_, _ = m.HandlersBindMaps(nil, map[string]am.HandlerFinal{
+		"HoldState": func(e *am.Event) {
+			close(entered)
+			select {
+			case <-gate:
+			case <-time.After(20 * time.Second):
+			}
+		},
+	})
+	am.VerifHookClear()
+	defer am.VerifHookClear()
+	holdDone := make(chan struct{})
+	go func() { m.Add1("Hold", nil); close(holdDone) }()
+	select {
+	case <-entered:
+	case <-time.After(10 * time.Second):
+		res.Inconclusive = "the holding handler was not entered"
+		close(gate)
+		return
+	}
+	if extra {
+		m.Add1("B", nil)
+	}
+	if add {
+		m.Add1("A", nil)
+		m.Remove1("A", nil)
+	} else {
+		m.Remove1("A", nil)
+		m.Add1("A", nil)
+	}
+	winGate := make(chan struct{})
+	reached := make(chan struct{})
+	var once sync.Once
+	am.VerifHookSet("dq.found", func() {
+		once.Do(func() {
+			close(reached)
+			select {
+			case <-winGate:
+			case <-time.After(20 * time.Second):
+			}
+		})
+	})
+	lastDone := make(chan am.Result, 1)
+	go func() {
+		if add {
+			lastDone <- m.Add1("A", nil)
+		} else {
+			lastDone <- m.Remove1("A", nil)
+		}
+	}()
+	select {
+	case <-reached:
+	case <-time.After(10 * time.Second):
+		res.Inconclusive = "dq.found not reached (the twin was not found in the queue)"
+		close(gate)
+		close(winGate)
+		return
+	}
+	// the queue moves on underneath
+	close(gate)
+	<-holdDone
+	for i := 0; i < 5000 && (m.QueueLen() > 0 || m.Transition() != nil); i++ {
+		time.Sleep(time.Millisecond)
+	}
+	close(winGate)
+	var rs am.Result
+	select {
+	case rs = <-lastDone:
+	case <-time.After(10 * time.Second):
+		res.Inconclusive = "the parked mutation did not return"
+		return
+	}
+	if q := quiesce(m); q != "" {
+		res.Inconclusive = "no quiescence: " + q
+		return
+	}
+	res.Evals++
+	res.Key("dedupwin", add, extra)
+	if m.Is1("A") != add {
+		op := "Remove1(A)"
+		if add {
+			op = "Add1(A)"
+		}
+		res.Violate("C04/lost-effect/duplicate-check-raced-the-queue", fmt.Sprintf(
+			"%s was issued last (returned %s) but A is active=%v on the idle machine: it was dropped as a duplicate of a mutation that had left the queue, "+
+				"together with the counter mutation behind it, while the duplicate check was between its two reads of the queue", op, rec.ResStr(rs), m.Is1("A")),
+			map[string]any{"final": m.StringAll()})
+	}
 }
 
 // runDedup: arg-less mutations (the only ones the queue may drop as
